@@ -13,7 +13,8 @@ import vf
 
 PARTS = ["Murmur3Partitioner", "OrderedPartitioner", "RandomPartitioner"]
 SPREADS = ["compact", "full", "edge", "zero"]
-FAULTS = ["", "local", "unknown-class", "bad-rf", "fetch-fail-ks", "fetch-remove"]
+FAULTS = ["", "local", "unknown-class", "bad-rf", "fetch-fail-ks", "fetch-remove", "remove", "remove"]
+DCNAMES = ["", "upper", "mixed", "blank"]
 POLS = [b + s_ + n for b in ("rr", "dc", "rack") for s_ in ("", "-shuffle") for n in ("", "-nonlocal")]
 DEV_WORKERS = int(os.environ.get("VERIF_TLC_WORKERS", "0")) or None   # None: all cores (the exhaustive generator pass)
 VAL_WORKERS = DEV_WORKERS or min(8, vf.NCPU)                             # vector validation passes
@@ -62,8 +63,9 @@ def exact_agreement(case, vec):
     for e in vec["look2"]:
         if e["hosts"] != exp[idx[e["t"]] - 1]:
             return False
-    if any(e["hosts"] for e in vec["look3"]):      # after a faulty update: nothing associated any more
-        return False
+    if vec["look3"]:      # after an update step: never identical by construction, TLC judges
+        if vec["fault"] == "remove" or any(e["hosts"] for e in vec["look3"]):
+            return False
     return True
 
 
@@ -132,7 +134,7 @@ def report(ctx, verdicts, vecs_by_key, origin):
         vec = vecs_by_key[ks[0]]
         smp = first["sample"] if first["sample"]["pos"] or not first.get("sample2") else first["sample2"]
         what = "%s: %d case(s), e.g. %s tokens %s ring=%s dc=%s rack=%s down=%s%s %s %s -> %s" % (
-            origin, len(ks), vec["part"], vec.get("spread") or "compact", vec["ring"], vec["dc"], vec["rack"], vec.get("down", []),
+            origin, len(ks), vec["part"], (vec.get("spread") or "compact") + (" dcnames=" + vec["dcnames"] if vec.get("dcnames") else ""), vec["ring"], vec["dc"], vec["rack"], vec.get("down", []),
             (" via TokenAwareHostPolicy(%s) after picks" % vec["pol"]) if vec.get("pol") else "", vec["strat"],
             dict(zip(vec["rfdc"], vec["rfn"])),
             ("panic: " + vec["pmsg"]) if vec["pclass"] != "none" else
@@ -155,7 +157,7 @@ def replay(ctx):
         raise vf.Inconclusive("no vectors in %s" % ctx.replay)
     cases = [dict(id=i + 1, ring=v["ring"], dc=v["dc"], rack=v["rack"], strat=v["strat"], rfdc=v["rfdc"], rfn=v["rfn"],
                   tokens=v["tokens"], look=[[e["t"]] for e in v["look"]] or [[t] for t in v["tokens"]], form=v["form"],
-                  parts=[v["part"]], down=v.get("down", []), spread=v.get("spread", ""), pol=v.get("pol", ""), fault=v.get("fault", "")) for i, v in enumerate(vecs)]
+                  parts=[v["part"]], down=v.get("down", []), spread=v.get("spread", ""), pol=v.get("pol", ""), fault=v.get("fault", ""), dcnames=v.get("dcnames", "")) for i, v in enumerate(vecs)]
     cp, rp = os.path.join(ctx.tmp, "cases.ndjson"), os.path.join(ctx.tmp, "results.ndjson")
     vf.write_ndjson(cp, cases)
     binary = vf.build_gotest(ctx, ".", harness_dirs("c10"))
@@ -194,6 +196,9 @@ def run(ctx):
         c["pol"] = POLS[(i // 4 + seed) % len(POLS)] if (i + seed) % 4 == 1 else ""
         # ... followed by an update that cannot be carried out (ALTER KEYSPACE to an unsupported placement, failing
         # keyspace metadata lookup at a schema event / while a node leaves)
+        # ... the spelling of the datacenter names in host rows and keyspace options (upper case, names differing
+        # only in case as different datacenters, surrounding blanks)
+        c["dcnames"] = DCNAMES[(i // 5 + seed) % len(DCNAMES)]
         c["fault"] = FAULTS[(i // 4 + i // 48 + seed) % len(FAULTS)] if c["pol"] else ""
     cp = os.path.join(ctx.tmp, "cases.ndjson")
     vf.write_ndjson(cp, [{k: v for k, v in c.items() if k != "exp"} for c in cases])
